@@ -72,4 +72,17 @@ CLAIMED.update({
         "definitions from pools and dimension-file variants; each is built through from_data_reader / from_csv / from_excel / manual assembly with "
         "files written by the harness and every attribute of the result is compared.",
    technique="TLA+ contract of system assembly enumerated by TLC (MC_System); every vector replayed through all construction routes"),
+ "C11": dict(engine="tables", ref="6/C11",
+   text="Tables.tla defines the content of a rendered table (long / wide over each dimension) and what import must return; TLC checks Prop_C11 (an "
+        "unfaulted table of any layout is imported as the array itself, each entry listed exactly once) for every (ordered dims, layout, style); the "
+        "harness concretises each abstract table as a pandas DataFrame in ten styles (index / columns, name / letter / anonymous headers, row and "
+        "column permutations, CSV text, omitted single-item dims, repeated row labels), imports it, and projects real to_df output (all options) "
+        "back to labelled rows.",
+   technique="TLA+ table-content model enumerated and checked with TLC (MC_Tables); abstract tables concretised as DataFrames and replayed; to_df output projected back"),
+ "C12": dict(engine="tables", ref="6/C12",
+   text="Fault actions on the abstract table (drop / duplicate / relabel / blank / drop column / extra value column / extra item column) in every position "
+        "and in sequences; Outcome(flags) in Tables.tla says for each of the four flag settings whether import must refuse, must return exactly the "
+        "label-correct array, or is left open; TLC checks Prop_C12 and emits every reachable table; each is imported through from_df, "
+        "set_values_from_df on a pre-filled target (must stay untouched on refusal) and the CSV reader.",
+   technique="TLA+ fault-sequence state machine over abstract tables (TLC, MC_Tables) replayed into from_df / set_values_from_df / CSVParameterReader with all flag settings"),
 })
